@@ -809,6 +809,159 @@ def gate_run(xs: list) -> bool:
     return True
 
 
+
+# --------------------------------------------------------------------------- every gate class x how it is constructed
+def _arg_domain(cls_name: str, pname: str, chosen: dict) -> list:
+    """Small value domain of a constructor parameter (by parameter name). [] = class not in this family."""
+    from bqskit.ir.gates import HGate, RZGate, U3Gate
+    n = chosen.get('num_qudits', 1)
+    if pname == 'radix':
+        return [2, 3, 4]
+    if pname == 'num_qudits':
+        return [1, 2, 3]
+    if pname == 'radixes':
+        if cls_name == 'ArbitraryCPhaseGate':
+            return [(2, 2), (2, 3), (3, 2)]
+        return [[], [3] * n, [2] * n]
+    if pname == 'index':
+        return [0, 1, 2]
+    if pname == 'target_qubit':
+        return [-1, 0]
+    if pname == 'num_controls':
+        return [1, 2]
+    if pname == 'control_radixes':
+        return [2, 3]
+    if pname == 'control_levels':
+        return [None]
+    if pname == 'gate':
+        return [U3Gate(), RZGate(), HGate(3)]
+    if pname == 'power':
+        return [1, 2, -1]
+    if pname == 'tag':
+        return ['x', 7]
+    if pname == 'frozen_params':
+        return [{0: 0.5}]
+    if pname == 'utry':
+        return [np.array([[0, 1], [1, 0]], dtype=complex)]
+    if pname == 'location':
+        return [tuple(reversed(range(n))), tuple(range(n))]
+    if pname == 'qudit_levels':
+        return ['0,1;1,0', '1,2;2,1']
+    return []
+
+
+def gate_classes() -> list:
+    """Every Gate class exported by bqskit.ir.gates whose constructor takes only parameters with a domain above."""
+    import inspect
+    import bqskit.ir.gates as G
+    out = []
+    for name in sorted(G.__all__):
+        cls = getattr(G, name)
+        if not (inspect.isclass(cls) and issubclass(cls, Gate)) or inspect.isabstract(cls):
+            continue
+        if name in ('ComposedGate', 'GeneralGate', 'QuditGate', 'QubitGate', 'ConstantGate'):
+            continue
+        ps = list(inspect.signature(cls.__init__).parameters.values())[1:]
+        if any(p.kind in (p.VAR_POSITIONAL, p.VAR_KEYWORD) for p in ps):
+            ps = []          # no-argument singletons: (*args, **kwargs) of CachedClass
+        if any(not _arg_domain(name, p.name, {}) for p in ps):
+            continue         # CircuitGate, MeasurementPlaceholder, EmbeddedGate, VariableLocationGate: other families
+        out.append((name, cls, [(p.name, p.default is not inspect.Parameter.empty) for p in ps]))
+    return out
+
+
+STYLES = ['positional', 'keyword', 'required-only', 'required-positional+optional-keyword', 'keyword-reversed']
+
+
+def gatex_run(xs: list) -> bool:
+    """A gate of SYMBOLIC class, built with SYMBOLIC argument values bound in a SYMBOLIC style (positional / keyword /
+    defaults omitted / mixed / keywords in reverse order), must survive pickle, dill, copy and deepcopy equal to what
+    was sent - also after the receiving side has built a default instance of the same class (CachedClass shares
+    instances per construction key) - and so must a circuit holding it."""
+    rt.begin()
+    src = Src(xs)
+    classes = gate_classes()
+    lo, hi = rt.SHARD.get('classes', [0, len(classes) - 1])
+    name, cls, params = classes[src.P(lo, min(hi, len(classes) - 1))]
+    style = STYLES[src.P(0, len(STYLES) - 1)] if params else 'positional'
+    chosen: dict = {}
+    for pname, _ in params:
+        dom = _arg_domain(name, pname, chosen)
+        chosen[pname] = dom[src.P(0, len(dom) - 1)]
+
+    def build() -> Any:
+        args: list = []
+        kw: dict = {}
+        for pname, has_default in params:
+            if style == 'positional':
+                args.append(chosen[pname])
+            elif style in ('keyword', 'keyword-reversed'):
+                kw[pname] = chosen[pname]
+            elif style == 'required-only':
+                if not has_default:
+                    args.append(chosen[pname])
+            else:
+                if has_default:
+                    kw[pname] = chosen[pname]
+                else:
+                    args.append(chosen[pname])
+        if style == 'keyword-reversed':
+            kw = dict(reversed(list(kw.items())))
+        return cls(*args, **kw)
+    try:
+        g = build()
+        g.radixes, g.num_params, g.num_qudits
+    except Exception:  # noqa   (argument combination outside the constructor's domain)
+        return True
+    rt.reach()
+    if rt.CONCRETE:
+        rt.log('gate', name, 'style', style, 'arguments', {k: repr(v)[:40] for k, v in chosen.items()}, '->', repr(g))
+    params_v = [0.1 * (i + 1) for i in range(g.num_params)]
+    numeric = True
+    try:
+        u = g.get_unitary(params_v).numpy
+    except Exception:  # noqa   (placeholders have no unitary)
+        numeric = False
+    radixes, nm, npar = tuple(g.radixes), g.name, g.num_params
+    for trn, tr in (('pickle', lambda x: pickle.loads(pickle.dumps(x))), ('dill', lambda x: dill.loads(dill.dumps(x))),
+                    ('copy.copy', copy.copy), ('copy.deepcopy', copy.deepcopy)):
+        try:
+            g2 = tr(g)
+        except Exception as e:  # noqa
+            rt.log(trn, 'raised', repr(e))
+            return rt.fail('gatex.%s:raised:%s' % (trn, type(e).__name__))
+        for phase in ('arrival', 'after-default-instance'):
+            if phase == 'after-default-instance':
+                try:                       # ordinary library use on the receiving side
+                    cls(*[chosen[pn] for pn, d in params if not d])
+                except Exception:  # noqa
+                    pass
+            if type(g2) is not type(g) or not (g2 == g) or not (g == g2) or hash(g2) != hash(g):
+                return rt.fail('gatex.%s:eq-hash:%s' % (trn, phase))
+            if g2.name != nm or g2.num_params != npar or tuple(g2.radixes) != radixes or tuple(g.radixes) != radixes:
+                rt.log(trn, phase, 'radixes sent', radixes, 'received', tuple(g2.radixes), 'sender now', tuple(g.radixes))
+                return rt.fail('gatex.%s:attributes:%s' % (trn, phase))
+            if numeric and not np.allclose(g2.get_unitary(params_v).numpy, u):
+                return rt.fail('gatex.%s:unitary:%s' % (trn, phase))
+    if not numeric:
+        return True
+    c = Circuit(g.num_qudits, g.radixes)
+    c.append_gate(g, list(range(g.num_qudits)), params_v)
+    op = c[0, 0]
+    cu = c.get_unitary().numpy
+    for trn, tr in (('pickle', lambda x: pickle.loads(pickle.dumps(x))), ('Circuit.copy', lambda x: x.copy()),
+                    ('copy.deepcopy', copy.deepcopy)):
+        c2 = tr(c)
+        if not (c2 == c) or snapshot(c2) != snapshot(c) or c2.gate_set != c.gate_set:
+            return rt.fail('gatex-in-circuit.%s:differs' % trn)
+        if not np.allclose(c2.get_unitary().numpy, cu):
+            return rt.fail('gatex-in-circuit.%s:unitary' % trn)
+    op2 = pickle.loads(pickle.dumps(op))
+    if op2 != op or tuple(op2.radixes) != tuple(op.radixes) or list(op2.params) != list(op.params):
+        return rt.fail('gatex-operation.pickle:differs')
+    return True
+
+
 # --------------------------------------------------------------------------- entries
 def circ(x0: int, x1: int, x2: int, x3: int, x4: int, x5: int, x6: int, x7: int, x8: int, x9: int, x10: int, x11: int,
          x12: int, x13: int, x14: int, x15: int, x16: int, a0: int, a1: int, a2: int, a3: int, a4: int, a5: int,
@@ -871,6 +1024,13 @@ def gate(x0: int, x1: int, x2: int, x3: int, x4: int, x5: int, x6: int, x7: int,
                             x20, x21, x22, x23])
 
 
+def gatex(x0: int, x1: int, x2: int, x3: int, x4: int, x5: int, x6: int, x7: int) -> bool:
+    """
+    post: _
+    """
+    return rt.nt(gatex_run, [x0, x1, x2, x3, x4, x5, x6, x7])
+
+
 HIST = ['pop', 'replace_gate', 'fold', 'unfold', 'renumber', 'insert_qudit', 'pop_qudit', 'batch_pop', 'batch_replace',
         'append_circuit', 'replace_with_circuit', 'compress', 'pop_cycle', 'straighten', 'remove', 'imul', 'iadd',
         'insert_gate', 'fold_unfold', 'batch_unfold']
@@ -909,6 +1069,8 @@ def obligations(tier: str) -> list[dict]:
         ob('graph/n4', 'graph', {'n': 4}, T)
         ob('graph/n5', 'graph', {'n': 5}, T)
         ob('gate/samples', 'gate', {}, T)
+        for lo in range(0, len(gate_classes()), 20):
+            ob('gate/classes%d-%d/styles' % (lo, lo + 19), 'gatex', {'classes': [lo, lo + 19]}, T)
     else:
         T = 3000
         ob('circ/pre2/W3', 'circ', {'W': 3, 'npre': 2, 'kinds': []}, T)
@@ -937,4 +1099,6 @@ def obligations(tier: str) -> list[dict]:
         ob('graph/n5/remote', 'graph', {'n': 5, 'remote': True}, T)
         ob('graph/n6', 'graph', {'n': 6}, T)
         ob('gate/samples', 'gate', {}, T)
+        for lo in range(0, len(gate_classes()), 10):
+            ob('gate/classes%d-%d/styles' % (lo, lo + 9), 'gatex', {'classes': [lo, lo + 9]}, T)
     return obs
